@@ -58,6 +58,13 @@ pub fn run_one(ctx: &Ctx, st: &mut Stats) -> bool {
 }
 
 pub fn replay(prop: &str, case: &Value, st: &mut Stats) -> bool {
+    if case.get("kind").and_then(|k| k.as_str()) == Some("history") {
+        // the recorded steps, back to back, in a fresh process
+        return match case.get("steps").and_then(|s| s.as_array()) {
+            Some(steps) => !steps.is_empty() && steps.iter().all(|s| replay(prop, s, st)),
+            None => false,
+        };
+    }
     if prop == "C02" || prop == "C03" {
         // composed drivers: the case says which oracle produced it
         if prop == "C03" && c03::replay(case, st) {
